@@ -68,6 +68,52 @@ theorem replace_get_above (t t' u : DTree) (p q : Path) (h : t.replace p u = som
     ∃ a b, t.get q = some a ∧ t'.get q = some b ∧ a.id = b.id ∧ a.sym = b.sym ∧ a.kids.length = b.kids.length :=
   replace_get_above' t t' u p q h h1 h2
 
+/-! #### replacement algebra: last write wins, self-replacement is the identity, defined exactly on the tree's paths -/
+/-- replacing twice at the same path keeps only the second replacement -/
+theorem replace_replace (t t' u v : DTree) (p : Path) (h : t.replace p u = some t') :
+    t'.replace p v = t.replace p v := by
+  induction p generalizing t t' with
+  | nil => simp [replace]
+  | cons j p ih =>
+    obtain ⟨i, s, ks, k, k', rfl, hk, hr, rfl⟩ := replace_cons_inv h
+    have hj : j < ks.length := by
+      rcases List.getElem?_eq_some_iff.1 hk with ⟨hj, _⟩; exact hj
+    simp only [replace, hk, List.getElem?_set_self hj, ih k k' hr, List.set_set]
+
+/-- replacing a subtree by itself changes nothing -/
+theorem replace_get_id (t u : DTree) (p : Path) (h : t.get p = some u) : t.replace p u = some t := by
+  induction p generalizing t with
+  | nil => simp [DTree.get] at h; simp [replace, h]
+  | cons j p ih =>
+    cases t with
+    | openLeaf i s => simp [DTree.get, DTree.kids] at h
+    | node i s ks =>
+      simp only [DTree.get, DTree.kids] at h
+      cases hk : ks[j]? with
+      | none => simp [hk] at h
+      | some k =>
+        simp only [hk] at h
+        simp only [replace, hk, ih k h]
+        have hj : j < ks.length := by
+          rcases List.getElem?_eq_some_iff.1 hk with ⟨hj, _⟩; exact hj
+        have : ks[j] = k := by simpa [hj] using hk
+        simp [← this]
+
+/-- replacement succeeds exactly at the paths of the tree -/
+theorem replace_isSome_iff (t u : DTree) (p : Path) : (t.replace p u).isSome ↔ (t.get p).isSome := by
+  induction p generalizing t with
+  | nil => simp [replace, DTree.get]
+  | cons j p ih =>
+    cases t with
+    | openLeaf i s => simp [replace, DTree.get, DTree.kids]
+    | node i s ks =>
+      simp only [replace, DTree.get, DTree.kids]
+      cases hk : ks[j]? with
+      | none => simp
+      | some k =>
+        have := ih k
+        cases hr : k.replace p u <;> simp [hr] at this ⊢ <;> simpa using this
+
 /-! #### structural hash -/
 theorem structEq_hash (hLeaf : String → Nat) (hNode : String → List Nat → Nat) (a b : DTree)
     (h : structEq a b = true) : structHash hLeaf hNode a = structHash hLeaf hNode b :=
